@@ -1,6 +1,6 @@
 (* C15 — the variable-length integer codec is a correct, canonical, total bijection.
    Statements only; every proof is [exact <lemma of Proofs/>]. *)
-From Ebml Require Import Base Tools Proofs.Tactics Proofs.BytesProofs Proofs.VintProofs Proofs.SVintProofs.
+From Ebml Require Import Base Tools Proofs.Tactics Proofs.BytesProofs Proofs.VintProofs Proofs.SVintProofs Proofs.AuditCodec.
 
 (* default encoder: shortest width, for every value below 2^56 *)
 Theorem C15_default_shortest : forall v, v < 2 ^ 56 ->
@@ -38,6 +38,13 @@ Theorem C15_need_more : forall buf, wf_bytes buf ->
   (read_vint buf = Ok None <->
    buf = [] \/ exists b0 tl, buf = b0 :: tl /\ b0 <> 0 /\ (length buf < vint_len b0)%nat).
 Proof. exact read_vint_need_more. Qed.
+
+(* the same as a statement about encodings: the decoder asks for more data exactly when the slice is a PROPER prefix of the encoding
+   [enc L v] of some value v < 2^(7L) in some width L of 1-8 bytes (the empty slice included) *)
+Theorem C15_need_more_prefix : forall buf, wf_bytes buf ->
+  (read_vint buf = Ok None <->
+   exists L v suf, (1 <= L <= 8)%nat /\ v < 2 ^ (7 * N.of_nat L) /\ suf <> [] /\ buf ++ suf = enc L v).
+Proof. exact need_more_prefix. Qed.
 
 (* never claims a length beyond the slice; and the consumed bytes are the canonical encoding of
    the returned (value, width): decoding is injective on (bytes consumed) *)
@@ -77,6 +84,22 @@ Theorem C15_signed_decode_encode : forall L z rest, (1 <= L <= 8)%nat ->
   (- 2 ^ (7 * Z.of_nat L - 1) <= z < 2 ^ (7 * Z.of_nat L - 1))%Z -> wf_bytes rest ->
   read_signed_vint (senc L z ++ rest) = Ok (Some (z, L)).
 Proof. exact signed_decode_encode. Qed.
+
+(* the signed decoder is the unsigned decoder followed by a total map of its result ([map_signed], Proofs/SVintProofs.v: need-more, error
+   and panic are passed through; a value v of width L becomes [sext L v] = v if v < 2^(7L-1), else v - 2^(7L)); so everything proved
+   about the unsigned decoder's control flow (no panic, need-more, the error, the consumed length) carries over.  That the model's
+   signed decoder has this shape is a fact about the model; the Rust function is tied to it by the correspondence run *)
+Theorem C15_signed_is_unsigned : forall buf, wf_bytes buf -> read_signed_vint buf = map_signed (read_vint buf).
+Proof. exact read_signed_vint_unsigned. Qed.
+
+Theorem C15_signed_decode_total : forall buf, wf_bytes buf -> read_signed_vint buf <> Panic.
+Proof. exact read_signed_vint_nopanic. Qed.
+
+(* need-more of the signed decoder: exactly the proper prefixes of encodings, as for the unsigned one *)
+Theorem C15_signed_need_more_prefix : forall buf, wf_bytes buf ->
+  (read_signed_vint buf = Ok None <->
+   exists L v suf, (1 <= L <= 8)%nat /\ v < 2 ^ (7 * N.of_nat L) /\ suf <> [] /\ buf ++ suf = enc L v).
+Proof. exact signed_need_more_prefix. Qed.
 
 (* signed and unsigned decoders agree on length (and on need-more / error) on every slice *)
 Theorem C15_signed_len_agree : forall buf, wf_bytes buf ->
